@@ -313,10 +313,13 @@ def invloopCore (table : List Nat) (resetPos : Bool) (st : InvState) (lps len : 
     InvState × Option Int :=
   let pos0 : Int := if resetPos then 0 else st.pos
   let count : Int := st.count + (table.getD st.speed 0 : Nat)
-  if len ≥ 0 ∧ count ≥ 128 then
-    -- `if (++xc->invloop.pos >= len) xc->invloop.pos = 0;`
-    let pos : Int := if pos0 + 1 ≥ len then 0 else pos0 + 1
-    ({ st with count := 0, pos := pos }, if canStore then some (lps + pos) else none)
+  if count ≥ 128 then
+    -- `xc->invloop.count = 0; if (len < 0) return;`
+    if len < 0 then ({ st with count := 0, pos := pos0 }, none)
+    else
+      -- `if (++xc->invloop.pos >= len) xc->invloop.pos = 0;`
+      let pos : Int := if pos0 + 1 ≥ len then 0 else pos0 + 1
+      ({ st with count := 0, pos := pos }, if canStore then some (lps + pos) else none)
   else ({ st with count := count, pos := pos0 }, none)
 
 /-- `update_invloop(ctx, xc)`.  `resetPos` is `ctx->p.frame == 0 && TEST(NEW_INS)`, `x = none` is
